@@ -41,8 +41,8 @@ DEF = dict(Mode='"pat"', Emit='FALSE', MaxPat=2, MaxSubj=2, MaxItems=1,
 # many small single-worker JVMs run side by side: keep each one narrow
 JVM_ENV = {'JDK_JAVA_OPTIONS': '-XX:ParallelGCThreads=2 -XX:CICompilerCount=2'}
 
-ALL_HF = list(range(1, 19))
-ALL_OPT = list(range(1, 18))
+ALL_HF = list(range(1, 21))
+ALL_OPT = list(range(1, 19))
 
 INVS = {
     'pat': ['WildIsRef', 'NegationExcludes', 'PositiveNeeded'],
@@ -72,8 +72,13 @@ def run_tlc(name, invs, timeout=1500, **kw):
     cfg = write_cfg(f'_c17_{name}.cfg', invs, **kw)
     tag = f'c17_{name}'
     try:
-        return tlc.run(SPEC, 'TrustFiles', cfg, tag, workers=1,
-                       timeout=timeout, java_heap='2g', env=JVM_ENV)
+        res = tlc.run(SPEC, 'TrustFiles', cfg, tag, workers=1,
+                      timeout=timeout, java_heap='2g', env=JVM_ENV)
+        if res.error and not res.violation and not res.timed_out:
+            # a starved / killed JVM on the shared machine: one more try
+            res = tlc.run(SPEC, 'TrustFiles', cfg, tag, workers=1,
+                          timeout=timeout, java_heap='2g', env=JVM_ENV)
+        return res
     finally:
         tlc.cleanup(tag)
         try:
@@ -98,7 +103,7 @@ def plan(ctx):
                            KeySel=[1, 2, 3], **smp(24 if q else 1))),
         ('kh2port', 'kh', dict(MaxLines=2, HFSel=[1, 7, 8, 9, 16, 18],
                                MarkSel=[1, 2, 3], KeySel=[1, 2])),
-        ('kh2addr', 'kh', dict(MaxLines=2, HFSel=[10, 11, 12, 13, 14, 15, 17],
+        ('kh2addr', 'kh', dict(MaxLines=2, HFSel=[10, 11, 12, 13, 14, 15, 17, 19, 20],
                                MarkSel=[1, 3], KeySel=[1, 3])),
         ('patU', 'pat', dict(MaxPat=2, MaxSubj=2, MaxItems=1, Upper='TRUE')),
         ('kh3', 'kh', dict(MaxLines=3, HFSel=[1, 4, 6, 8], MarkSel=[1, 3],
@@ -131,7 +136,7 @@ SENSITIVITY = [
                           NegIgnored='TRUE'), 'NegationExcludes'),
     ('fallback', 'kh', dict(MaxLines=2, HFSel=[1, 8], FallbackAlways='TRUE'),
      'FallbackRule'),
-    ('anyfrom', 'ak', dict(MaxEntries=1, MaxOpts=2, OptSel=[1, 2, 3, 4, 17],
+    ('anyfrom', 'ak', dict(MaxEntries=1, MaxOpts=2, OptSel=[1, 2, 3, 4, 17, 18],
                            AnyFromSuffices='TRUE'), 'AllMustMatch'),
     ('wit_fallback', 'kh', dict(MaxLines=1, HFSel=[1, 8]), 'NeverFallsBack'),
     ('wit_neg', 'pat', dict(MaxPat=1, MaxSubj=1, MaxItems=2),
@@ -477,6 +482,8 @@ def _main(real_ctx, tf, workdir):
                                    f' must violate {prop})', f.result(),
                                    expect_violation=prop)
 
+    import time
+    t_tlc = time.time() - real_ctx.t0
     menu = None
     total = 0
     replayer = None
@@ -504,6 +511,8 @@ def _main(real_ctx, tf, workdir):
 
     second_opinion(ctx, tf, replayer.second, workdir, 700 if quick else 4000)
 
+    ctx.notes.append(f'phases: TLC {t_tlc:.1f}s, replay+sweep+second opinion '
+                     f'{time.time() - real_ctx.t0 - t_tlc:.1f}s')
     if ctx.suppressed:
         ctx.notes.append(f'{ctx.suppressed} further violations not written '
                          f'out (cap {ctx.MAXV})')
